@@ -8,6 +8,7 @@ from typing import Any, Iterable
 from .. import gen, impl, refeval
 from ..build import Env, enc_val
 from ..runprop import RunProp
+from . import c10 as _c10
 
 
 class C11(RunProp):
@@ -16,13 +17,26 @@ class C11(RunProp):
     compare_events = True
     nontrivial_rule = (
         "every generator's programs with 1-2 failing function nodes at any nesting depth (0-2), under run with error_handling raise/continue, "
-        "gated programs with failing branches, mapping nodes with failing items; both runners; non-trivial = the failing run had completed "
+        "gated programs with failing branches, mapping nodes with failing items, runner.map over graphs with failing items (raise / continue, "
+        "async under random completion orders and concurrency limits); both runners; non-trivial = the failing run had completed "
         "at least one node before the failure; distinct by canonical hash"
     )
     budgets = {"quick": 300, "thorough": 6000}
 
+    def _rmap_cases(self, rng: random.Random, tier: str) -> Iterable[dict]:
+        """runner.map over graphs with failing items (C10's generator), both error modes, async under random completion orders and limits."""
+        for c in _c10.PROP.cases(rng, tier):
+            if c["kind"] == "map":
+                yield {"kind": "rmap", "m": c, "program": c["program"], "values": c["values"], "cfg": {}, "runner": c["runner"], "failing": []}
+
     def cases(self, rng: random.Random, tier: str) -> Iterable[dict]:
+        rmaps = self._rmap_cases(rng, tier)
+        forced = 6
         while True:
+            if forced or rng.random() < 0.12:
+                forced = max(0, forced - 1)
+                yield next(rmaps)
+                continue
             r = rng.random()
             if r < 0.6:
                 c = gen.gen_dag_program(rng, max_nodes=7, depth=rng.choice([0, 1, 2]), allow_fed_default=False, allow_emit=False)
@@ -43,7 +57,76 @@ class C11(RunProp):
             for runner in ("sync", "async"):
                 yield {"program": c["program"], "values": c["values"], "cfg": c.get("cfg", {}), "runner": runner, "kind": kind, "failing": c.get("failing", [])}
 
+    # runner.map cases are executed, modelled and compared exactly as C10 does; the ORACLE below is C11's own
+    def impl(self, case: dict) -> Any:
+        if case["kind"] == "rmap":
+            return _c10.PROP.impl(case["m"])
+        return super().impl(case)
+
+    def model(self, case: dict, driver: Any) -> Any:
+        if case["kind"] == "rmap":
+            return _c10.PROP.model(case["m"], driver)
+        return super().model(case, driver)
+
+    def compare(self, case: dict, i: Any, m: Any) -> str | None:
+        if case["kind"] == "rmap":
+            return _c10.PROP.compare(case["m"], i, m)
+        return super().compare(case, i, m)
+
+    def _rmap_oracle(self, case: dict, obs: Any) -> str | None:
+        m = case["m"]
+        if obs.get("status") in ("build-error", "deadlock"):
+            return f"map case could not run: {obs.get('status')} {obs.get('detail', '')}"
+        if _c10.combos(m["values"], m["mapOver"], m["mode"]) is None:
+            return None
+        singles = obs["singles"]
+        own = [s["error"] for s in singles if s["status"] == "failed"]
+        if m["mapErr"] == "raise":
+            if own and (obs["raised"] is None or obs["raised"] not in own):
+                return f"map in raise mode: items fail with {own} but the call surfaced {obs['raised']!r} (not one of the node exceptions, or a copy)"
+            if obs["raised"] is not None and not str(obs["raised"]).startswith("user:"):
+                return f"map in raise mode surfaced {obs['raised']!r}, not the node's own exception object"
+            return None
+        if obs["raised"] is not None:
+            return f"map in continue mode raised {obs['raised']!r}"
+        for i, (r, s) in enumerate(zip(obs["results"], singles)):
+            if s["status"] == "failed":
+                if r["status"] != "failed" or r["error"] != s["error"]:
+                    return f"item {i} fails with {s['error']} but its result is {r['status']} carrying {r['error']!r}"
+                good = [kv for kv in s["values"]]
+                if m["runner"] == "sync" and impl.differ(r["values"], good):
+                    return f"item {i}: FAILED result holds {r['values']}, the completed work is {good}"
+                if any(kv not in r["values"] for kv in good):
+                    return f"item {i}: FAILED result {r['values']} lacks values completed before the failure {good}"
+            elif r["status"] == "failed":
+                return f"item {i} does not fail, yet its result is FAILED carrying {r['error']!r} (another item's exception)"
+        return None
+
+    def nontrivial(self, case: dict, obs: Any) -> bool:
+        if case["kind"] == "rmap":
+            return any(s["status"] == "failed" for s in obs.get("singles", []))
+        return obs.get("status") == "failed" and len(obs.get("calls", [])) >= 2
+
+    def features(self, case: dict, obs: Any) -> dict:
+        if case["kind"] == "rmap":
+            return {"kind": "rmap", "runner": case["runner"], "err": case["m"]["mapErr"], "k": case["m"]["k"], "items": len(obs.get("singles", [])),
+                    "failing_items": sum(1 for s in obs.get("singles", []) if s["status"] == "failed")}
+        return {"kind": case["kind"], "runner": case["runner"], "status": obs.get("status"), "raised": obs.get("raised"),
+                "depth": len(case["program"]) - 1, "failing": len(case["failing"]), "err": (obs.get("error") or "")[:5]}
+
+    def sample(self, case: dict, obs: Any) -> Any:
+        if case["kind"] == "rmap":
+            return {k: v for k, v in case["m"].items() if k != "seed"}
+        return super().sample(case, obs)
+
+    def signature(self, case: dict, obs: Any, why: str) -> str:
+        if case["kind"] == "rmap":
+            return _c10.PROP.signature(case["m"], obs, why)
+        return super().signature(case, obs, why)
+
     def oracle(self, case: dict, obs: Any) -> str | None:
+        if case["kind"] == "rmap":
+            return self._rmap_oracle(case, obs)
         if obs["status"] == "build-error":
             return f"valid program rejected at construction: {obs.get('detail')}"
         if obs["status"] != "failed":
@@ -92,13 +175,6 @@ class C11(RunProp):
                         if o in good and o not in have:
                             return f"value {o!r} was completed in an earlier step than the failure but is missing from the partial result"
         return None
-
-    def nontrivial(self, case: dict, obs: Any) -> bool:
-        return obs.get("status") == "failed" and len(obs.get("calls", [])) >= 2
-
-    def features(self, case: dict, obs: Any) -> dict:
-        return {"kind": case["kind"], "runner": case["runner"], "status": obs.get("status"), "raised": obs.get("raised"),
-                "depth": len(case["program"]) - 1, "failing": len(case["failing"]), "err": (obs.get("error") or "")[:5]}
 
     def neighbours(self, case: dict, rng: random.Random) -> Iterable[dict]:
         yield from self.cases(rng, "quick")
